@@ -53,7 +53,11 @@ extern "C" void harness() {
 #else
     int present = vp_fork_int(vp_int("has", 0, 1));
 #endif
-    W xw = (W)vp_double_grid("w", 1.0, 1.0, VP_WMAX); int x = 0; if (present) { for (int q = 1; q <= VP_WMAX; q++) if (xw == (W)q) x = q; }
+#ifdef VP_FORKW   /* one path per concrete weight assignment (enumerated by the solver): for the 6-vertex units */
+    W xw = (W)vp_double_grid_forked("w", 1.0, 1.0, VP_WMAX);
+#else
+    W xw = (W)vp_double_grid("w", 1.0, 1.0, VP_WMAX);
+#endif int x = 0; if (present) { for (int q = 1; q <= VP_WMAX; q++) if (xw == (W)q) x = q; }
     w[i][j] = w[j][i] = present ? x : -1; if (present) e.emplace_back(label[i], label[j], xw);
 #else
     int x = vp_int("w", 0, VP_WMAX); w[i][j] = w[j][i] = x == 0 ? -1 : x; if (x) e.emplace_back(label[i], label[j], (W)x);
